@@ -316,6 +316,13 @@ def compare_signal(fmt, ref, res):
             if db.start % 2 != d['ear'] or (npulses and edges[db.start] != d['t_lead']):
                 out.append(('datablock', 'block {}: start index {} (time {}, level {}) expected time {} level {}'.format(
                     i, db.start, edges[db.start], db.start % 2, d['t_lead'], d['ear'])))
+            elif (not sig.exact and npulses and wave_ok and db.end - db.start == npulses - 1 and edges[db.end] <= t_last
+                  and (db.end == last or edges[db.end + 1] > t_last)
+                  and (sig.edges.count(t_last) % 2 == 0 or (d['tail'] and t_last == t_end))):
+                # zero-length pulses that follow the block cancel the trailing edge of its last
+                # pulse (the signal has no level change there), or the tape ends at the end of the
+                # tail pulse: the range ends one edge earlier
+                pass
             elif not end_ok or db.end - db.start != npulses:
                 out.append(('datablock', 'block {}: range {}-{} (end time {}) expected {} pulses ending at {}'.format(
                     i, db.start, db.end, edges[db.end], npulses, t_last)))
@@ -338,8 +345,14 @@ def compare_signal(fmt, ref, res):
                         out.append(('decode', 'block {}: tail pulse {} expected {}'.format(i, tail, d['tail'])))
         else:
             nonzero = any(w for bit in d['bits'] for w in (d['s1'] if bit else d['s0'])) or (d['tail'] and not tail_gone)
-            if nonzero and edges[db.end] != t_last and not prolonged(edges[db.end], t_last):
-                out.append(('datablock', 'block {} (sample-like): end index {} at time {} expected {}'.format(i, db.end, edges[db.end], t_last)))
+            # the range must take in every level change before the end of the block's last pulse
+            # (that end itself may coincide with a zero-length pulse and be no level change at all)
+            if nonzero and edges[db.end] > t_last and not prolonged(edges[db.end], t_last):
+                out.append(('datablock', 'block {} (sample-like): end index {} at time {}, after the block ends ({})'.format(
+                    i, db.end, edges[db.end], t_last)))
+            elif db.end < last and edges[db.end + 1] < t_last:
+                out.append(('datablock', 'block {} (sample-like): end index {} but edge {} at {} is before the block ends ({})'.format(
+                    i, db.end, db.end + 1, edges[db.end + 1], t_last)))
     return out
 
 
